@@ -40,6 +40,7 @@ _CONTAINER_METHODS = {
     'list': ('append', 'extend', 'insert', 'pop', 'remove', 'index', 'count', 'copy', 'reverse', 'sort', 'clear'),
     'set': ('add', 'update', 'discard', 'remove', 'copy', 'union', 'intersection', 'difference', 'clear'),
     'dict': ('keys', 'values', 'items', 'get', 'copy', 'pop', 'update', 'setdefault', 'clear'),
+    'str': ('join', 'split', 'strip', 'lstrip', 'rstrip', 'startswith', 'endswith', 'lower', 'upper', 'replace', 'isdigit', 'find', 'count', 'format', 'zfill'),
 }
 
 
@@ -78,7 +79,7 @@ class Obj:
         if fn is None:
             raise Unsupported('no method %s' % name)
         params = [a.arg for a in fn.args.args]
-        env = {params[0]: self}
+        env = {params[0]: (self.target if isinstance(self, _Bound) else self)}
         defaults = fn.args.defaults
         for i, d in enumerate(defaults):
             env[params[len(params) - len(defaults) + i]] = ev(d, {}, self.funcs)
@@ -96,6 +97,16 @@ class Obj:
             body = body[1:]
         kind, val = run_block(body, env, self.funcs)
         return val if kind == 'return' else None
+
+
+class _Bound:
+    """adapter: lets Obj.call interpret a repository method with an abstract object as self"""
+
+    def __init__(self, target, methods, funcs):
+        self.target, self.methods, self.funcs = target, methods, funcs
+
+    def __getattr__(self, k):
+        return getattr(self.target, k)
 
 
 _DUNDER = {ast.Lt: '__lt__', ast.LtE: '__le__', ast.Gt: '__gt__', ast.GtE: '__ge__',
@@ -176,10 +187,15 @@ def ev(n, env, funcs=None):
                 rv = ev(f.value, env, funcs)
             except Unsupported:
                 rv = None
-            if isinstance(rv, (list, set, dict)) and fname in _CONTAINER_METHODS.get(type(rv).__name__, ()) and not n.keywords:
+            if isinstance(rv, (list, set, dict, str)) and fname in _CONTAINER_METHODS.get(type(rv).__name__, ()) and not n.keywords:
                 return getattr(rv, fname)(*[ev(a, env, funcs) for a in n.args])
             if isinstance(rv, PyStub):
                 if not hasattr(rv, fname):
+                    rm = getattr(rv, 'repo_methods', None)
+                    if rm and fname in rm:
+                        # a method the model does not define: interpret the repository's own method with self = the abstract object
+                        return Obj.call(_Bound(rv, rm, getattr(rv, 'repo_funcs', funcs)), fname, *[ev(a, env, funcs) for a in n.args],
+                                        **{k.arg: ev(k.value, env, funcs) for k in n.keywords if k.arg})
                     raise Unsupported('abstract object has no method %s' % fname)
                 kw = {k.arg: ev(k.value, env, funcs) for k in n.keywords if k.arg}
                 return getattr(rv, fname)(*[ev(a, env, funcs) for a in n.args], **kw)
